@@ -22,3 +22,10 @@ _m = _u.module_from_spec(_sp); _m.Obligation = Obligation; _m.reuse = reuse; _sp
 import copy as _c
 for _o in _m.OBLIGATIONS_C09:
     _x = _c.copy(_o); _x.src = "../C05/" + _o.src; OBLIGATIONS.append(_x)
+OBLIGATIONS += [
+    Obligation(name="xz_memlimit_dictionary_adjustment", src="../C18/xzcoder.c", func="harness_memlimit_settings", lib="xz", defs=["SMALL_IOBUF"], unwind=13, flags=FL, timeout_q=280,
+        functions=["coder_set_compression_settings", "get_chains_memusage", "memlimit_too_small"],
+        stubs=["library memory-usage functions = a monotone model (100000 + 11 * dictionary size of the chain's LZMA filter); hardware_memlimit_get returns the symbolic limit; message()/uint64_to_str stubs; message_fatal ends the path; single-threaded branch (hardware_threads_is_mt false)"],
+        desc="xz -T1 compress to .xz with a user memory limit, filter chain 0 and any of --filters1/--filters2 in use, dictionaries 1..7 MiB, any limit: when coder_set_compression_settings returns, EVERY chain in use fits the limit; dictionaries only shrink, only with auto-adjust allowed, in whole MiB steps, never below 1 MiB; otherwise xz fails (message_fatal)",
+        bounds_q="3 chains, dictionaries 1..7 MiB, all limits"),
+]
